@@ -140,7 +140,7 @@ Definition units_check (hist : bool) (spec : ucase -> outcome recv_out -> bool) 
 
 Definition c06_check := units_check true c06_spec_ok.
 Definition c11_check := units_check false c11_spec_ok.
-Definition c12_check := units_check true (fun c o => c12_spec_ok c o && c12_foreign_ok c o).
+Definition c12_check := units_check true (fun c o => c12_spec_ok c o && c12_foreign_ok c o && c12_state_ok c o).
 
 Definition units_nontriv (l o : list Z) : bool :=
   match l with 200 :: _ => true
